@@ -58,6 +58,15 @@ def run(tier, seed):
     if rn.violated != "NoHang":
         raise MachineryError("negative control: the model of the pinned cleanup loop does not violate NoHang")
 
+    # liveness under weak fairness: every call that was started comes to an end (temporal property, not only quiescent states)
+    lcfg = os.path.join(d, "live.cfg")
+    with open(lcfg, "w") as f:
+        f.write("SPECIFICATION Spec\nCONSTANTS\n  Callers = {1, 2, 3}\n  Closers = {3}\n  PeerCloses = TRUE\n  SnapshotCleanup = TRUE\n"
+                "  RecordHist = FALSE\nPROPERTY Completes\nCHECK_DEADLOCK FALSE\n")
+    rl = run_tlc(mod, lcfg, workers=16, timeout=3000)
+    ev.add_tlc("Ipc.tla temporal property Completes (call started ~> call ended) under WF(Next), 3 callers incl. one close()", rl)
+    if rl.violated:
+        vd.violation({"what": f"design-level: Ipc.tla violates the liveness property Completes ({rl.violated})", "counterexample": rl.cex[:8000]})
     behs = []
     r2 = run_tlc(mod, write_cfg(d, [1, 2], True, True, "e2.cfg"), workers=1, timeout=3000)
     ev.add_tlc("Ipc.tla behaviour tree, 2 callers (exhaustive, emitted for replay)", r2)
